@@ -5,6 +5,8 @@ import (
 	"go/constant"
 	"go/token"
 	"go/types"
+	"sort"
+	"strings"
 
 	"golang.org/x/tools/go/ssa"
 
@@ -91,6 +93,32 @@ func unparenExpr(e ast.Expr) ast.Expr {
 	}
 }
 
+// callsToDeep: calls of a function of that name made by f or by the repository functions it calls (three levels):
+// the fact "this path uses X" does not depend on which helper the call sits in.
+func callsToDeep(f *ssa.Function, name string) []ssa.CallInstruction {
+	reach := map[*ssa.Function]bool{}
+	calleesOf(f, 3, reach)
+	reach[f] = true
+	var fs []*ssa.Function
+	for g := range reach {
+		if g.Pkg != nil && strings.HasPrefix(g.Pkg.Pkg.Path(), core.ModPath) {
+			fs = append(fs, g)
+		}
+	}
+	sort.Slice(fs, func(i, j int) bool { return fs[i].String() < fs[j].String() })
+	var out []ssa.CallInstruction
+	seen := map[ssa.Instruction]bool{}
+	for _, g := range fs {
+		for _, call := range callsTo(g, name) {
+			if !seen[call] {
+				seen[call] = true
+				out = append(out, call)
+			}
+		}
+	}
+	return out
+}
+
 func callsTo(f *ssa.Function, name string) []ssa.CallInstruction {
 	var out []ssa.CallInstruction
 	allInstrs(f, func(fn *ssa.Function, ins ssa.Instruction) {
@@ -111,19 +139,19 @@ func c11Structure(c *core.Ctx) {
 			c.Und("R2/shared-caller/"+w.name, token.NoPos, "UNRESOLVED anchor")
 			continue
 		}
-		calls := callsTo(f, "GetVariantsPair")
-		ok := len(calls) == 1 && calls[0].Common().StaticCallee().Pkg.Pkg.Name() == "variants"
+		calls := callsToDeep(f, "GetVariantsPair")
+		ok := len(calls) >= 1 && calls[0].Common().StaticCallee().Pkg.Pkg.Name() == "variants"
 		c.Ob("R2/shared-caller/"+w.name, ok, f.Pos(), "%s must obtain its mutations from variants.GetVariantsPair (found %d calls)", w.name, len(calls))
 	}
 	if f := c.SSAFunc("pkg/sam", "getVariantsSam"); f != nil {
-		c.Ob("R2/offsets-from-GetMSAOffsets/getVariantsSam", len(callsTo(f, "GetMSAOffsets")) == 1, f.Pos(), "the SAM path must derive its offset tables with variants.GetMSAOffsets from the reference row")
-		c.Ob("R2/soft-gap-encoding/getVariantsSam", len(callsTo(f, "MakeEncodingArray")) == 1 && len(callsTo(f, "MakeEncodingArrayHardGaps")) == 0, f.Pos(), "the SAM path must encode its rows with the soft-gap table the FASTA reader uses")
+		c.Ob("R2/offsets-from-GetMSAOffsets/getVariantsSam", len(callsToDeep(f, "GetMSAOffsets")) >= 1, f.Pos(), "the SAM path must derive its offset tables with variants.GetMSAOffsets from the reference row")
+		c.Ob("R2/soft-gap-encoding/getVariantsSam", len(callsToDeep(f, "MakeEncodingArray")) >= 1 && len(callsToDeep(f, "MakeEncodingArrayHardGaps")) == 0, f.Pos(), "the SAM path must encode its rows with the soft-gap table the FASTA reader uses")
 	}
 	if f := c.SSAFunc("pkg/variants", "Variants"); f != nil {
-		c.Ob("R2/offsets-from-GetMSAOffsets/Variants", len(callsTo(f, "GetMSAOffsets")) >= 1, f.Pos(), "the FASTA path must derive its offset tables with GetMSAOffsets")
+		c.Ob("R2/offsets-from-GetMSAOffsets/Variants", len(callsToDeep(f, "GetMSAOffsets")) >= 1, f.Pos(), "the FASTA path must derive its offset tables with GetMSAOffsets")
 		// the reader is started with hardGaps = false
 		okFlag := false
-		for _, call := range callsTo(f, "ReadEncodeAlignment") {
+		for _, call := range callsToDeep(f, "ReadEncodeAlignment") {
 			for _, a := range call.Common().Args {
 				if k, ok := a.(*ssa.Const); ok && k.Value != nil && k.Value.Kind() == constant.Bool && !constant.BoolVal(k.Value) {
 					okFlag = true
@@ -134,7 +162,7 @@ func c11Structure(c *core.Ctx) {
 	}
 	if f := c.SSAFunc("pkg/sam", "Variants"); f != nil {
 		ok := false
-		for _, call := range callsTo(f, currentName(c, "pkg/sam", "blockToPairwiseAlignment")) {
+		for _, call := range callsToDeep(f, currentName(c, "pkg/sam", "blockToPairwiseAlignment")) {
 			args := call.Common().Args
 			if k, isC := args[len(args)-1].(*ssa.Const); isC && k.Value != nil && !constant.BoolVal(k.Value) {
 				ok = true
